@@ -1095,6 +1095,10 @@ func (c1 complexConst) binaryOp(op ast.OperatorType, c2 constant) (constant, err
 		re, _ := n1.r.binaryOp(op, n2.r)
 		im, _ := n1.i.binaryOp(op, n2.i)
 		return re.(boolConst) && im.(boolConst), nil
+	case ast.OperatorNotEqual:
+		re, _ := n1.r.binaryOp(op, n2.r)
+		im, _ := n1.i.binaryOp(op, n2.i)
+		return re.(boolConst) || im.(boolConst), nil
 	case ast.OperatorAddition, ast.OperatorSubtraction:
 		re, _ := n1.r.binaryOp(op, n2.r)
 		im, _ := n1.i.binaryOp(op, n2.i)
